@@ -225,8 +225,8 @@ fn zero_right_pad_integer_ascii_digits(
     };
 
     // did not explicitly request precision, so we'll only
-    // implicitly right-pad if less than this threshold.
-    if target_scale.is_none() && integer_zero_count > 20 {
+    // implicitly right-pad up to the (configured) Display threshold.
+    if target_scale.is_none() && integer_zero_count > EXPONENTIAL_FORMAT_TRAILING_ZERO_THRESHOLD {
         // no padding
         verif_probe!(Fmt_IntPadImplicitSkip);
         return;
@@ -250,8 +250,9 @@ fn zero_right_pad_integer_ascii_digits(
 
     let total_additional_zeros = integer_zero_count.saturating_add(fraction_zero_char_count);
 
-    // no padding if out of bounds
-    if total_additional_zeros > FMT_MAX_INTEGER_PADDING {
+    // no padding if out of bounds (the limit belongs to formatting with a precision;
+    // without one, the zero count is bounded by the Display threshold checked above)
+    if target_scale.is_some() && total_additional_zeros > FMT_MAX_INTEGER_PADDING {
         verif_probe!(Fmt_IntPadLimit);
         return;
     }
